@@ -489,7 +489,8 @@ Record case := mk_case {
   c_queries : list (list sel * list (string * string * bool))
       (* query, and for (service, version) whether PrepareQuery on that version's built schema accepted it *);
   c_fedkeys : nat   (* ConvertVersionedSchemas: 1 = accepted, 2 = refused with "Invalid federation key",
-                       3 = refused with "... exists on another server and is not federated", 0 = anything else *)
+                       3 = refused with "... exists on another server and is not federated",
+                       4 = refused, whatever the message (generated key configurations only), 0 = anything else *)
 }.
 
 Definition opt_json_eqb (a b : option json) : bool :=
@@ -540,6 +541,10 @@ Definition check_case (c : case) : list nat :=
                     end
    | 3, Some per => match merge_slice Union (map snd per) with
                     | Some m => if fedobjs_ok per m then [4] else []
+                    | None => []
+                    end
+   | 4, Some per => match merge_slice Union (map snd per) with
+                    | Some m => if fedobjs_ok per m && fedkeys_ok per m then [4] else []
                     | None => []
                     end
    | _, _ => []
